@@ -33,7 +33,18 @@ def parse_label(label):
     args = []
     if m.group(2) is not None and m.group(2).strip() != "":
         args = vf.unset(vf.parse_tla_value("<<" + m.group(2) + ">>"))
-    return m.group(1), args
+    name = m.group(1)
+    if name == "TickBigS":
+        return "TickA", args
+    if name == "TickBigDS":
+        return "TickD", args
+    if name.endswith("S") and name[:-1] in SIM_VARIANTS:
+        name = name[:-1]          # the rarely-enabled simulation variant of the same action
+    return name, args
+
+
+SIM_VARIANTS = {"Lease", "CacheWrite", "SubQueryWrite", "PrefetchComplete", "CutWrite", "ProofWrite", "Purge",
+                "ParentWithdraw", "ParentRepoint", "ParentRetime", "ServeAnswer", "SelfReferral", "TickD"}
 
 
 def fn_items(f):
@@ -175,3 +186,24 @@ def run_api(ctx):
     info.update(validate_trace(ctx, "Trace_LeaseAnswer.cfg", trace, len(bl), "C04 API", res.get("violations")))
     ctx.cov["replay"]["c04_api"] = info
     return info
+
+
+def run_replay(ctx, path):
+    """bin/check --replay: re-run exactly the recorded behaviour (driver replays) or re-validate the
+    recorded trace prefix (trace-monitor replays).  Returns False if the file is not an API-tier replay."""
+    import json
+    with open(path) as f:
+        rep = json.load(f)
+    body = rep.get("replay", {})
+    if isinstance(body, dict) and body.get("driver") == "c04-lease":
+        res = ctx.go_driver("./c04", "TestLeaseReplay", body["input"], name="replay", timeout=900)
+        ctx.take_driver_result(res, "[C04 API replay] ")
+        ctx.cov["replay"]["replayed"] = {"behaviour": body.get("behaviour"), "steps": len(body.get("history", []))}
+        return True
+    if isinstance(body, dict) and "trace_prefix" in body:
+        trace = os.path.join(ctx.scratch, "replay.ndjson")
+        with open(trace, "w") as f:
+            f.write("\n".join(body["trace_prefix"]) + "\n")
+        ctx.cov["replay"]["replayed"] = validate_trace(ctx, "Trace_LeaseAnswer.cfg", trace, 1, "C04 API", None)
+        return True
+    return False
